@@ -274,6 +274,35 @@ func (e *nestEnv) afterLanding(c *node, target uint32) {
 	}
 }
 
+// landExactly brings the inlined size of c to exactly target with tiny plain values: removals / insertions
+// until one overwrite can absorb the difference, then that overwrite (e.tiny must be set).
+func (e *nestEnv) landExactly(c *node, target uint32) bool {
+	nv := len(e.st.Violations)
+	defer func(f int) { e.force = f }(e.force)
+	for i := 0; i < 60 && len(e.st.Violations) == nv && e.st.HarnessErr == ""; i++ {
+		s, ok := c.inlinedSize(e.T)
+		if !ok {
+			return false
+		}
+		if s == target {
+			return true
+		}
+		if e.landOn(c, target) {
+			continue
+		}
+		if s > target {
+			e.force = 2
+		} else {
+			e.force = 1
+		}
+		e.mutatePlain(c, "C10")
+		if !e.mutated {
+			return false
+		}
+	}
+	return false
+}
+
 // landNear: c is a stand-alone child close above its slot budget: go to exactly budget+1 (still a
 // separate slab: the parent must not be written), then to exactly the budget (inlined).
 func (e *nestEnv) landNear(c *node) bool {
@@ -325,12 +354,23 @@ func (e *nestEnv) opNewChildStandalone() {
 		}
 		e.mutatePlain(c, "C10")
 	}
+	// the size at the moment of insertion: often EXACTLY budget+1 (must stay a separate slab) or exactly the
+	// budget (must be inlined) - the insertion-time decisions of array_data_slab.go / map_element.go
+	switch e.rng.Intn(10) {
+	case 0, 1, 2:
+		e.landExactly(c, b+1)
+	case 3, 4:
+		e.landExactly(c, b)
+	}
 	e.tiny, e.force = false, 0
 	if !ok() {
 		return
 	}
+	if s, single := c.inlinedSize(e.T); single && (s == b || s == b+1) {
+		e.st.Hit(fmt.Sprintf("inserted-at:limit%+d:%c-in-%c", int(s)-int(b), kind, p.kind))
+	}
 	func() {
-		defer e.guardOthers("inserting a new child container", p)()
+		defer e.guardOthers("inserting a new child container", p, c)()
 		e.st.Hit(fmt.Sprintf("new-standalone-child-%c-in-%c-wrap%d", kind, p.kind, wrap))
 		e.insertInto(p, sval{child: c, wrap: wrap})
 	}()
@@ -338,6 +378,29 @@ func (e *nestEnv) opNewChildStandalone() {
 		return
 	}
 	e.handleState()
+	// half of the time the handle is obtained again by LOOKUP in the parent first (the callback then is the one
+	// Array.Get / OrderedMap.Get install), otherwise it stays the one the insertion installed
+	if e.rng.Intn(2) == 0 {
+		e.st.Hit("new-standalone-child:handle-by-lookup")
+		if p.kind == 'a' {
+			for i, v := range p.elems {
+				if v.child == c && !e.getChildArr(p, i) {
+					return
+				}
+			}
+		} else {
+			for _, k := range e.sortedKeys(p) {
+				if p.kv[k].child == c && !e.getChildMap(p, k) {
+					return
+				}
+			}
+		}
+		if !e.refetchBelow(c) {
+			return
+		}
+	} else {
+		e.st.Hit("new-standalone-child:handle-by-insertion")
+	}
 	e.tiny, e.force = true, 2
 	defer func() { e.tiny, e.force = false, 0 }()
 	for i := 0; i < 40 && ok() && !c.inlinedNow(); i++ {
